@@ -10,6 +10,12 @@ Case dicts (JSON):
       a HISTORY of calls on ONE map field, one numeric source field and one indexed source field (coq/Model/MapHistory.v);
       step names: stream cs | istream cs vf | mapvalid | safe | isafe | self cs (the map column mapped through itself);
       result = [[destination of each step...], [map, numeric source, source offsets, source bytes AFTER the history]]
+CALL FORMS (coq/Model/MapCallForms.v): a 'stream' / 'istream' case with a key 'form' = [inv_given, cs|None, vf|None] is
+called with exactly the optional arguments that are given (None = omitted: the library's own default applies, nothing is
+patched); 'cs' / 'vf' then hold the RESOLVED sizes (DEFAULT_CHUNKSIZE = 2^20 / value_factor 8 as operations.py defines
+them), 'proxy' = [pcs, pvf] the small sizes through which the model evaluates the call (theorems *_call_eval_correct),
+'kwinv' whether invalid is passed by keyword, 'via' = 'merge' (the column is mapped by DataFrame.merge(how='left') whose
+right map is the case's map) or 'session' (Session.ordered_merge_left with fields: _streaming_map_fields).
 K in NUM_KINDS (small integral values), 'S3' (data = list of ascii strings of length <= 3), or a bit-pattern kind
 'f64b' / 'f32b' (data = IEEE bit patterns as unsigned ints: NaNs, -0.0, infinities, denormals survive the comparison).
 A None in 'map' is the invalid marker selected by 'inv' (0: -1, 1: INVALID_INDEX_32, 2: INVALID_INDEX_64).
@@ -62,6 +68,16 @@ RULE = ('exhaustive small scope: every map of length <= N whose valid entries ar
         'CALL FORMS: f(src, map, dst[, invalid]) with chunksize / value_factor left to the function defaults, as '
         'DataFrame.merge calls them — defaults patched to every small size (all maps of length <= 3) and the real '
         'defaults (2^20 rows; indexed 2^20 x 8 in the thorough tier only). '
+        'OMITTED ARGUMENTS (coq/Model/MapCallForms.v; nothing patched, the library defaults DEFAULT_CHUNKSIZE = 2^20 and '
+        'value_factor 8 as they are): both streams called with every subset of {invalid, chunksize, value_factor} given '
+        '(none; each alone; both sizes), invalid positionally or by keyword, for every map of length <= 3 over sources of '
+        'length <= 3 whose entries are sized around 8 x len(map) bytes (8n-1, 8n, 8n+1, 16n+5) and up to 3000 bytes, for '
+        'maps that are short / long relative to the source, empty and all-invalid maps, empty sources; then structured '
+        'random ones (maps <= 300, sources <= 300, entries <= 4 KB), the same through DataFrame.merge(how=left, ordered '
+        'keys) and Session.ordered_merge_left (fields), and change-directed (entry widths, map lengths and single size '
+        'arguments around every new literal K, 8K). The model evaluates a call that uses a default size through a small '
+        'proxy size after checking the regime in Gallina (theorems indexed_stream_call_eval_correct / '
+        'stream_call_eval_correct; size independence). '
         'CHANGE-DIRECTED: every small integer literal that is new in the tree under test (harness/hot.py) is planted '
         'as chunk size, map length, run length and entry byte width (K-1, K, K+1, 2K, 3K, ...). '
         'Non-trivial = the case reaches at least one planted feature other than its marker/kind tags.')
@@ -250,12 +266,103 @@ def _call(f, fields3, inv, sizes, dflt):
         f.__defaults__ = saved
 
 
+def _call_form(f, fields3, inv, form, kwinv):
+    """f(src, map, dst) plus exactly the optional arguments the case gives: invalid (positionally or by keyword),
+    chunksize=, value_factor= ; an omitted argument takes the library's default (nothing is patched)"""
+    inv_given, cs, vf = form
+    args, kw = list(fields3), {}
+    if inv_given:
+        if kwinv:
+            kw['invalid'] = inv
+        else:
+            args.append(inv)
+    if cs is not None:
+        kw['chunksize'] = cs
+    if vf is not None:
+        kw['value_factor'] = vf
+    return f(*args, **kw)
+
+
+def _merge_keys(case):
+    """ordered keys whose left join has the case's (non-decreasing) map as its right map; right keys unique"""
+    n_src = len(case['strs']) if case['op'] == 'istream' else len(case['data'])
+    rk = [10 * (j + 1) for j in range(n_src)]
+    lk, prev = [], -1
+    for k in case['map']:
+        if k is None:
+            lk.append(10 * (prev + 1) + 5)
+        else:
+            prev = k
+            lk.append(10 * (k + 1))
+    return lk, rk
+
+
+def _run_via(case):
+    """the production paths to the streamed mappings: neither passes chunksize / value_factor"""
+    np = _np
+    inv = _marker(case)
+    lk, rk = _merge_keys(case)
+    lu = len(set(lk)) == len(lk)
+    want = _map_array(case)
+    if case['via'] == 'session':
+        s = _session.Session()
+        kind = case['kind']
+        lkf = _num_field(None, 'lk', 'int32', np.asarray(lk, dtype=np.int32))
+        rkf = _num_field(None, 'rk', 'int32', np.asarray(rk, dtype=np.int32))
+        src = _num_field(None, 'src', kind, _data_array(kind, case['data']))
+        dst = _num_field(None, 'dst', kind, None)
+        mp = _num_field(None, 'map', _map_dtype(case), None)
+        s.ordered_merge_left(lkf, rkf, right_field_sources=(src,), left_field_sinks=(dst,), left_to_right_map=mp,
+                             left_unique=lu, right_unique=True)
+        got = mp.data[:]
+        if len(got) != len(want) or not np.array_equal(np.asarray(got, dtype=np.int64), want.astype(np.int64)):
+            raise AssertionError('the map generated by ordered_merge_left is not the map of the case')
+        return _canon_elems(kind, dst.data[:])
+    from exetera.core import dataframe
+    h5 = case.get('store') == 'h5'
+    if h5:
+        left, right, dest = _h5_df(), _h5_df(), _h5_df()
+    else:
+        import io
+        ds = _session.Session().open_dataset(io.BytesIO(), 'w', 'ds')
+        left, right, dest = ds.create_dataframe('l'), ds.create_dataframe('r'), ds.create_dataframe('d')
+    left.create_numeric('id', 'int32').data.write(np.asarray(lk, dtype=np.int32))
+    right.create_numeric('id', 'int32').data.write(np.asarray(rk, dtype=np.int32))
+    if case['op'] == 'istream':
+        _idx_field(right, 'col', case['strs'])
+    else:
+        _num_field(right, 'col', case['kind'], _data_array(case['kind'], case['data']))
+    dataframe.merge(left, right, dest, 'id', 'id', how='left', hint_left_keys_ordered=True, hint_left_keys_unique=lu,
+                    hint_right_keys_ordered=True, hint_right_keys_unique=True)
+    got = dest['_right_map'].data[:]
+    if len(got) != len(want) or not np.array_equal(np.asarray(got, dtype=np.int64), want.astype(np.int64)):
+        raise AssertionError('the right map generated by merge is not the map of the case')
+    if case['op'] == 'istream':
+        return [_ints(dest['col'].indices[:]), _ints(dest['col'].values[:])]
+    return _canon_elems(case['kind'], dest['col'].data[:])
+
+
 def run(case):
     np, ops = _np, _ops
     op = case['op']
     inv = _marker(case)
     if op == 'hist':
         return _run_hist(case)
+    if case.get('via'):
+        return _run_via(case)
+    if 'form' in case:
+        df = _h5_df() if case.get('store') == 'h5' else None
+        mp = _num_field(df, 'map', _map_dtype(case), _map_array(case))
+        if op == 'stream':
+            kind = case['kind']
+            src = _num_field(df, 'src', kind, _data_array(kind, case['data']))
+            dst = _num_field(df, 'dst', kind, None)
+            _call_form(ops.ordered_map_valid_stream, (src, mp, dst), inv, case['form'], case.get('kwinv'))
+            return _canon_elems(kind, dst.data[:])
+        src = _idx_field(df, 'src', case['strs'])
+        dst = _idx_field(df, 'dst', None)
+        _call_form(ops.ordered_map_valid_indexed_stream, (src, mp, dst), inv, case['form'], case.get('kwinv'))
+        return [_ints(dst.indices[:]), _ints(dst.values[:])]
     if op == 'stream':
         df = _h5_df() if case.get('store') == 'h5' else None
         kind = case['kind']
@@ -323,6 +430,10 @@ def _warmup(run):
             run({'op': 'mapvalid', 'kind': kind, 'data': data, 'map': [0, None, 1], 'inv': inv, 'mdt': mdt})
             for ev in ((None,) if kind == 'S3' else (None, data[0])):   # numba cannot type a bytes empty_value
                 run({'op': 'safe', 'kind': kind, 'data': data, 'map': [0, None, 1], 'inv': inv, 'ev': ev, 'mdt': mdt})
+    for via in ('merge', 'session'):
+        run(_form_case({'op': 'stream', 'kind': 'int32', 'data': [1, 0], 'map': [0, None, 1], 'inv': 1, 'via': via},
+                       [1, None, None], 2))
+    run(_form_case({'op': 'istream', 'strs': ['a', 'bb'], 'map': [0, None, 1], 'inv': 1, 'via': 'merge'}, [1, None, None], 2))
     for inv, mdt in ((0, 'int32'), (0, 'int64'), (1, 'int32'), (2, 'int64')):
         run({'op': 'istream', 'strs': ['a', 'bb'], 'map': [0, None, 1], 'inv': inv, 'cs': 2, 'vf': 2, 'mdt': mdt})
         for ev in (None, 'x'):
@@ -355,6 +466,13 @@ def _welems(kind, data):
 def to_val(case):
     op = case['op']
     head = lambda code: [code, VARIANT, case['inv'], case.get('cs', 1), case.get('vf', 1), _wmap(case)]
+    if 'form' in case:
+        ig, fcs, fvf = case['form']
+        args = [1 if ig else 0, -1 if fcs is None else fcs, -1 if fvf is None else fvf] + list(case['proxy'])
+        if op == 'stream':
+            return head(11 if case['kind'] == 'S3' else 10) + [_welems(case['kind'], case['data']), args]
+        idx, val = _split(case['strs'])
+        return head(12) + [idx, val, args]
     if op == 'stream':
         return head(2 if case['kind'] == 'S3' else 1) + [_welems(case['kind'], case['data'])]
     if op == 'istream':
@@ -466,6 +584,28 @@ def features(case, model):
         f.append('hdf5-backed')
     if case.get('dflt'):
         f.append('size arguments omitted (defaults: %s)' % case['dflt'])
+    if 'form' in case:
+        ig, fcs, fvf = case['form']
+        f.append('call form: ' + ('both sizes omitted' if fcs is None and fvf is None and op == 'istream' else
+                                 'chunksize omitted' if fcs is None and op == 'stream' else
+                                 'value_factor alone (chunksize omitted)' if fcs is None else
+                                 'chunksize alone (value_factor omitted)' if fvf is None and op == 'istream' else
+                                 'all sizes given by keyword'))
+        if not ig:
+            f.append('call form: invalid omitted')
+        if case.get('via'):
+            f.append('via ' + ('DataFrame.merge' if case['via'] == 'merge' else 'Session.ordered_merge_left'))
+        if op == 'istream' and fcs is None:
+            strs_, n_ = case['strs'], len(m)
+            ml_ = [_bl(strs_[k]) for k in m if k is not None and 0 <= k < len(strs_)]
+            if ml_ and max(ml_) > 8 * n_:
+                f.append('default chunksize: mapped entry > 8 x len(map) bytes')
+            if ml_ and max(ml_) >= 1000:
+                f.append('default chunksize: mapped entry >= 1000 bytes')
+        if fcs is None and m and len(m) < (len(case['strs']) if 'strs' in case else len(case['data'])):
+            f.append('default chunksize: map shorter than source')
+        if fcs is None and m and len(m) > (len(case['strs']) if 'strs' in case else len(case['data'])):
+            f.append('default chunksize: map longer than source')
     if isinstance(model, str):
         f.append('model:' + model.split(':')[0] + (':' + model.split(':')[1] if model.startswith('EXC') else ''))
     if not m:
@@ -692,9 +832,13 @@ def _gen(tier, rng):
     if os.environ.get('C04_NEW'):       # development aid: only the generators added by the strengthening round
         yield from _gen_histories(big, rng)
         yield from _gen_defaults(big, rng)
+        yield from _gen_callforms(big, rng)
         yield from _gen_extremes(big, rng)
         yield from _gen_text(big, rng)
         yield from _gen_scaled(big, rng)
+        return
+    if os.environ.get('C04_FORMS'):     # development aid: only the call-form generators
+        yield from _gen_callforms(big, rng)
         return
     N, L = (6, 5) if big else (5, 4)
     other_kinds = ['int64', 'uint8', 'float32', 'float64', 'bool', 'S3']
@@ -811,6 +955,7 @@ def _gen(tier, rng):
         return
     yield from _gen_histories(big, rng)
     yield from _gen_defaults(big, rng)
+    yield from _gen_callforms(big, rng)
     yield from _gen_extremes(big, rng)
     yield from _gen_text(big, rng)
     yield from _gen_scaled(big, rng)
@@ -925,6 +1070,181 @@ def _gen_defaults(big, rng):
         for k in range(2):                      # indexed: 2^20 offsets and 2^23 bytes of buffer (slow in the model)
             yield {'op': 'istream', 'strs': ['a', '', 'ccc', 'dd'], 'map': [[0, None, 3, 2, 2], [None, 1, 0]][k], 'inv': 1 + k,
                    'cs': DEFAULT_CS, 'vf': 8, 'dflt': 'real'}
+
+
+# ---- call forms: optional arguments OMITTED, the library's own defaults, nothing patched (Model/MapCallForms.v) ------
+DEFAULT_VF = 8
+
+
+def _form_case(c, form, pcs):
+    """complete a stream / istream case with its call form: resolved sizes (what operations.py defines as defaults
+    when the argument is omitted) and the proxy sizes through which the model evaluates the call"""
+    c = dict(c)
+    ig, fcs, fvf = form
+    if c['op'] == 'istream':
+        c['strs'] = _cap_model_cost(c['strs'], c['map'], c.pop('heavy', False))
+    c['form'] = [1 if ig else 0, fcs, fvf]
+    c['cs'] = DEFAULT_CS if fcs is None else fcs
+    pcs = max(1, pcs)
+    if c['op'] == 'istream':
+        c['vf'] = DEFAULT_VF if fvf is None else fvf
+        ml = [_bl(c['strs'][k]) for k in c['map'] if k is not None and 0 <= k < len(c['strs'])]
+        c['proxy'] = [pcs, max(1, -(-max(ml + [1]) // pcs))]
+    else:
+        c['proxy'] = [pcs, 1]
+    return c
+
+
+def _cap_model_cost(strs, m, heavy):
+    """the list model writes a value buffer of B bytes in O(B) per byte, and the proxy buffer is as long as the longest
+    mapped entry: a case costs about B x (sum of the mapped entries' lengths) steps. Entries of several KB mapped by long
+    maps are kept in the designated heavy cases only; elsewhere the longest mapped entries are shortened until the
+    case costs about 6 x 10^5 steps (e.g. one 750-byte entry mapped once, or a 53-byte entry mapped 200 times)"""
+    cap = 1.7e7 if heavy else 6.0e5
+    strs = list(strs)
+    rows = [k for k in m if k is not None and 0 <= k < len(strs)]
+    for _ in range(200):
+        if not rows or max(len(strs[k]) for k in rows) * sum(len(strs[k]) for k in rows) <= cap:
+            break
+        k = max(rows, key=lambda r: len(strs[r]))
+        strs[k] = strs[k][:len(strs[k]) * 3 // 4]
+    return strs
+
+
+def _forms(op, rot, n, K=None):
+    """the subsets of the optional size arguments: none, each alone, both"""
+    small = [1, 2, 3, max(1, n), n + 1, 4, 7, 16, 64, 1024] + ([max(1, K - 1), K, K + 1] if K else [])
+    c = small[rot % len(small)]
+    if op == 'stream':
+        return [(None, None), (c, None)]
+    v = ([1, 2, 8, 16, 3] + ([K] if K else []))[rot % (6 if K else 5)]
+    return [(None, None), (None, v), (c, None), (c, v)]
+
+
+def _entry_lens(n, rot, K=None):
+    """byte lengths of source entries around 8 x len(map) (the value buffer a chunk of len(map) rows would get with the
+    default value factor) and up to a few KB"""
+    e = 8 * n
+    pool = [0, 1, 7, 8, 9, max(0, e - 1), e, e + 1, 2 * e + 5, 53, 255, 256, 300, 1000, 3000]
+    if K:
+        pool += [max(0, K - 1), K, K + 1, 8 * K - 1, 8 * K, 8 * K + 1]
+    return pool
+
+
+def _gen_callforms(big, rng):
+    from harness import hot
+    rot = 0
+    # -- exhaustive: every map of length <= 3 over sources of length <= 3, every subset of the size arguments
+    for Ls in range(0, 4):
+        for n in range(0, 4):
+            maps = list(all_maps(n, Ls)) + (list(all_maps_any(n, Ls)) if n >= 2 and Ls >= 2 else [])
+            for m in maps:
+                if 0 < Ls < 3 and Ls - 1 not in m and n > 0:
+                    continue
+                pool = _entry_lens(n, rot)
+                for cs_, vf_ in _forms('istream', rot, n):
+                    for rep in range(2):
+                        rot += 1
+                        inv = rot % 3
+                        lens = [pool[(rot * 7 + 3 * i * i + i) % len(pool)] for i in range(Ls)]
+                        if rep and [k for k in m if k is not None]:     # the long entry is a MAPPED one
+                            lens[[k for k in m if k is not None][rot % len([k for k in m if k is not None])]] = \
+                                [53, 8 * n + 1, 16 * n + 5, 300, 1000, 3000][rot % 6]
+                        c = {'op': 'istream', 'strs': _strs(lens), 'map': m, 'inv': inv, 'kwinv': rot % 4 == 0,
+                             'heavy': rot % 40 == 0 and big}
+                        if inv == 0 and rot % 2:
+                            c['mdt'] = 'int64'
+                        yield _form_case(c, [0 if inv == 0 and rot % 5 < 3 else 1, cs_, vf_], [1, 2, 3, 4, 16][rot % 5])
+                for cs_, vf_ in _forms('stream', rot, n):
+                    rot += 1
+                    inv = rot % 3
+                    kind = (['int32'] * 2 + NUM_KINDS + ['S3'])[rot % 9]
+                    c = {'op': 'stream', 'kind': kind, 'data': _data(kind, Ls), 'map': m, 'inv': inv, 'kwinv': rot % 4 == 0}
+                    if inv == 0 and rot % 2:
+                        c['mdt'] = 'int64'
+                    yield _form_case(c, [0 if inv == 0 and rot % 5 < 3 else 1, cs_, vf_], 1 + rot % 4)
+    # -- structured random: maps short / long relative to the source, entries up to a few KB, production paths
+    hots = [K for K in hot.hot_sizes() if K <= 600]
+    budget = (6000 if big else 1500) * (2 if hot.changed() else 1)
+    for k in range(budget):
+        K = rng.choice(hots) if hots and k % 2 else None
+        shape = rng.choice(['short-map', 'long-map', 'balanced', 'all-invalid', 'empty-map', 'one-row'])
+        Ls = rng.choice([1, 2, 3, 5, 12, 40]) if shape != 'short-map' else rng.choice([8, 40, 120, 300])
+        if K and rng.random() < 0.3:
+            Ls = max(1, rng.choice([K - 1, K, K + 1]))
+        n = {'short-map': rng.randint(1, 4), 'long-map': rng.choice([Ls + 1, 2 * Ls, 8 * Ls, 50, 300]),
+             'balanced': rng.randint(max(1, Ls - 2), Ls + 2), 'all-invalid': rng.choice([1, 2, 3, 9, 70]),
+             'empty-map': 0, 'one-row': 1}[shape]
+        if K and rng.random() < 0.3:
+            n = max(0, rng.choice([K - 1, K, K + 1, 2 * K]))
+        n = min(n, 600)
+        via = None
+        r = rng.random()
+        if k % 12 == 0 and n >= 1:
+            via = 'merge'
+        elif k % 12 == 1 and n >= 1:
+            via = 'session'
+        if shape == 'all-invalid':
+            m = [None] * n
+        elif via or rng.random() < 0.6:
+            m, cur, gap = [], rng.randrange(Ls) if shape == 'short-map' else 0, False
+            for _ in range(n):
+                if rng.random() < 0.25:
+                    m.append(None)
+                    gap = True
+                else:
+                    step = rng.choice([0, 1, 1, 2, Ls // 2])
+                    if via and gap and m and step == 0 and any(x is not None for x in m):
+                        step = 1        # an unmatched key of an ordered join lies strictly between two right rows
+                    if cur + step > Ls - 1 and via and gap and any(x is not None for x in m):
+                        m.append(None)
+                        continue
+                    cur = min(Ls - 1, cur + step)
+                    m.append(cur)
+                    gap = False
+        else:
+            m = [None if rng.random() < 0.25 else rng.randrange(Ls) for _ in range(n)]
+        sel = 'istream' if (k % 3 or via == 'merge') and via != 'session' else 'stream'
+        if via == 'merge' and k % 24 == 0:
+            sel = 'stream'
+        forms = _forms(sel, rng.randrange(1000), n, K)
+        form = forms[0] if via or rng.random() < 0.4 else rng.choice(forms)
+        inv = 1 if via == 'merge' else rng.choice([1, 2]) if via == 'session' else rng.randint(0, 2)
+        ig = 1 if via or inv != 0 or rng.random() < 0.4 else 0
+        c = {'map': m, 'inv': inv, 'kwinv': rng.random() < 0.3, 'store': 'h5' if k % 16 == 5 and not via == 'session' else 'mem'}
+        if via:
+            c['via'] = via
+        if inv == 0 and rng.random() < 0.5:
+            c['mdt'] = 'int64'
+        if sel == 'istream':
+            pool = _entry_lens(n, 0, K)
+            lens = [rng.choice(pool) if rng.random() < 0.5 else rng.choice([0, 1, 2, 5]) for _ in range(Ls)]
+            big_one = rng.choice([8 * n + 1, 16 * n + 5, 53, 300, 1000, 2047, 4096] + ([8 * K + 1] if K else []))
+            valid = [x for x in m if x is not None]
+            if valid and rng.random() < 0.7:
+                lens[rng.choice(valid)] = big_one              # one mapped entry far longer than 8 x len(map)
+            elif rng.random() < 0.5:
+                lens[rng.randrange(Ls)] = big_one
+            if k % 50 == 7 and valid:                         # the designated heavy cases: an entry of 1-4 KB, mapped
+                lens[valid[0]] = rng.choice([1000, 2047, 3000, 4096])
+            if sum(lens) > 40000:
+                lens = [x if x > 64 and i % 7 == 0 else min(x, 9) for i, x in enumerate(lens)]
+            c.update({'op': 'istream', 'strs': _strs(lens), 'heavy': k % 50 == 7})
+        else:
+            kind = rng.choice(['int32'] + NUM_KINDS + ([] if via == 'session' else ['S3']))
+            c.update({'op': 'stream', 'kind': kind, 'data': _vals(kind, Ls)})
+        yield _form_case(c, [ig, form[0], form[1]], rng.choice([1, 2, 3, 5, 8, 16, min(64, max(1, n))]))
+    # -- empty sources (only all-invalid / empty maps are in range)
+    for n in (0, 1, 2, 5):
+        for inv in (0, 1, 2):
+            for form in ((None, None), (2, None), (None, 2)):
+                rot += 1
+                yield _form_case({'op': 'istream', 'strs': [], 'map': [None] * n, 'inv': inv, 'kwinv': rot % 2 == 0},
+                                 [1 if inv else rot % 2, form[0], form[1]], 2)
+                if form[1] is None:
+                    kind = (NUM_KINDS + ['S3'])[rot % 7]
+                    yield _form_case({'op': 'stream', 'kind': kind, 'data': [], 'map': [None] * n, 'inv': inv},
+                                     [1 if inv else rot % 2, form[0], None], 2)
 
 
 # ---- source values at the extremes of their type ----------------------------------------------------------
@@ -1191,10 +1511,20 @@ def shrink(case):
         c = dict(case)
         c['map'] = m[:i] + m[i + 1:]
         yield c
-    if case['op'] in ('stream', 'istream'):
+    if 'form' in case:
+        if case.get('via'):
+            c = dict(case); del c['via']; yield c
+        if case.get('kwinv'):
+            c = dict(case); c['kwinv'] = False; yield c
+        if case['op'] == 'istream':
+            for i, sv in enumerate(case['strs']):          # shorter entries (the map and the sizes stay)
+                if len(sv) > 1:
+                    c = dict(case); c['strs'] = list(case['strs']); c['strs'][i] = sv[:len(sv) // 2]
+                    yield _form_case(c, case['form'], case['proxy'][0])
+    elif case['op'] in ('stream', 'istream'):
         for cs in range(1, case['cs']):
             c = dict(case); c['cs'] = cs; yield c
-    if case['op'] == 'istream' and case['vf'] > 1:
+    if 'form' not in case and case['op'] == 'istream' and case['vf'] > 1:
         c = dict(case); c['vf'] = case['vf'] - 1; yield c
     used = [k for k in m if k is not None]
     for key in ('strs', 'data'):
